@@ -351,7 +351,7 @@ def main():
             per_job.append(jstat)
         else:  # seqx
             out = os.path.join(outdir, 'seq.json')
-            cmd = [exe, '--tier', tier, '--json', out, '--deadline', f'{remaining:.0f}', '--workers', '16'] + job.get('args', [])
+            cmd = [exe, '--tier', job.get('tier') or tier, '--json', out, '--deadline', f'{remaining:.0f}', '--workers', '16'] + job.get('args', [])
             r = sh(cmd)
             if r.returncode not in (0, 1) or not os.path.exists(out):
                 harness_errors.append(f"seq {job['tu']}: rc={r.returncode} {r.stderr[-1500:]}")
